@@ -89,6 +89,10 @@ class Reg(Logic):
             
         self.value = self.reset_value
         
+        # the register powers up holding its reset value (as 'reg rq = <reset_value>'
+        # does in the generated Verilog), so q shows it before the first clock edge
+        self.q.put(self.reset_value)
+        
     def clock(self):
         setValue = True
         resetValue = False
